@@ -50,7 +50,8 @@ Rewrite rules (each application is counted per function and reported in the evid
       `enumerate` becomes an explicit counter incremented at the end of the body (only for bodies without continue/break/return)
   R21 `//@ seam: "FROM" => "TO"` (inside a //@fn block): a declared substitution of an iterator expression or `impl Iterator`
       parameter by a seam object of the unit (e.g. `bytes.iter().cloned()` -> `&mut ByteSrc::cloned(bytes)`, whose assumed
-      contract says which items the adapter chain yields). FROM must occur exactly once in header + body, else the function
+      contract says which items the adapter chain yields). FROM must occur exactly once in header + body (`=>*N`: exactly N times, all
+      replaced), else the function
       is stubbed (undecided); every pair is listed in the evidence. Nothing but the item source changes
   `//@fieldorder file | Struct | f1, f2 | derive A, B` emits `proof fn derive_shape_Struct() ensures true|false`: the truth value of "the
       struct declares exactly these fields in this order and derives these traits" as read from the source on this run
@@ -432,7 +433,10 @@ def apply_rewrites(body, counts):
         else:
             edits.append((m.start(), m.end(), "let mut %s: usize = 0; /*R20*/ for %s in" % (cnt, pat)))
         edits.append((m.end() + me.start(), m.end() + me.end(), " "))
-        edits.append((close, close, " %s += 1; /*R20*/ " % cnt))
+        # a body whose last expression has no `;` (a unit-valued tail expression such as `k0.set_mut(i, *b)`) gets one
+        code_inner = "".join(ch if mask[i + 1 + k] else " " for k, ch in enumerate(inner)).rstrip()
+        sep = "" if (not code_inner or code_inner[-1] in ";}") else ";"
+        edits.append((close, close, "%s %s += 1; /*R20*/ " % (sep, cnt)))
         counts["R20"] = counts.get("R20", 0) + 1
     # R13 `use crate::...;` inside a body: dropped (the unit's prelude provides the name)
     for m in re.finditer(r"\buse\s+crate::[\w:]+\s*;", body):
@@ -791,13 +795,14 @@ def apply_seams(sections, name, texts, counts):
     texts = list(texts)
     for _, _, txt in seams:
         for sl in [x for x in txt.split("\n") if x.strip()]:
-            ms = re.match(r'^\s*"((?:[^"\\]|\\.)*)"\s*=>\s*"((?:[^"\\]|\\.)*)"\s*$', sl)
+            ms = re.match(r'^\s*"((?:[^"\\]|\\.)*)"\s*=>(\*(\d+))?\s*"((?:[^"\\]|\\.)*)"\s*$', sl)
             if not ms:
                 raise ExtractError("%s: malformed seam line: %s" % (name, sl))
-            frm, to = ms.group(1).replace('\\"', '"'), ms.group(2).replace('\\"', '"')
+            frm, to = ms.group(1).replace('\\"', '"'), ms.group(4).replace('\\"', '"')
+            want = int(ms.group(3)) if ms.group(2) else 1   # `=>*N`: the text must occur exactly N times, all are replaced
             n_occ = sum(t.count(frm) for t in texts)
-            if n_occ != 1:
-                raise ExtractError("seam text %r occurs %d times in %s (expected exactly 1)" % (frm, n_occ, name))
+            if n_occ != want:
+                raise ExtractError("seam text %r occurs %d times in %s (expected exactly %d)" % (frm, n_occ, name, want))
             texts = [t.replace(frm, to) for t in texts]
             counts["R21"] = counts.get("R21", 0) + 1
             counts.setdefault("R21_text", []).append([frm, to])
